@@ -207,7 +207,7 @@ impl NameOracle {
     }
 }
 
-const NAME_TOKENS: &[&str] = &["a", "b", "/", "é", "topics", "subscriptions", "projects", "-", "_deleted_topic_"];
+const NAME_TOKENS: &[&str] = &["a", "A", "/", "é", "topics", "subscriptions", "projects", "-", "_deleted_topic_"];
 const RAW_ALPHABET: &[&str] = &["p", "r", "/", "a", "é", "t"];
 
 fn name_failure(rule: String, detail: String, s: &str) -> Failure {
